@@ -109,7 +109,9 @@ zPivotGrowth(int_t ncols, SuperMatrix *A, int_t *perm_c,
 		rpg = SUPERLU_MIN( rpg, maxaj / maxuj );
 	}
 	
-	if ( j >= ncols ) break;
+	/* No early exit here: supernodes are numbered in the order they were
+	   created by the threads, which need not be column order. The inner
+	   loop already skips columns >= ncols. */
     }
 
     SUPERLU_FREE(inv_perm_c);
